@@ -97,61 +97,70 @@ deriving Repr, Inhabited
 
 def Config.get (c : Config) (n : String) : Option J := c.props.lookup n
 
-/-- the parameters of the key construction -/
-structure Env (κ : Type) where
+/-- The parameters of the key construction.  `σ` is what gets hashed (in the C++: std::string).
+    In the C++ `enc` is json::dumpToString, `raw` the identity on strings, `full k` the JSON
+    string holding `k.getFullString()`, `short k` the one holding `k.getString()`. -/
+structure Env (κ σ : Type) where
   /-- occa::hash(const std::string&) -/
-  H : String → κ
-  /-- json::dumpToString -/
-  enc : J → String
-  /-- hash_t::getFullString -/
-  full : κ → String
-  /-- hash_t::getString -/
-  short : κ → String
+  H : σ → κ
+  /-- json::dumpToString: what json::hash() feeds to occa::hash -/
+  enc : J → σ
+  /-- a text (kernel source, file contents) as fed to occa::hash / hashFile -/
+  raw : String → σ
+  /-- the JSON value stored for a hash_t rendered with getFullString (256 bits) -/
+  full : κ → J
+  /-- the JSON value stored for a hash_t rendered with getString (64 bits) -/
+  short : κ → J
   /-- what the device mode does to the serial kernelHash (Serial: nothing, OpenMP: xor with a constant) -/
   tweak : κ → κ
   /-- device::hash() (versionedHash of the mode device) -/
   dev : κ
 
-variable {κ : Type}
+variable {κ σ : Type}
 
-def render (e : Env κ) (r : Render) : κ → String :=
+def render (e : Env κ σ) (r : Render) : κ → J :=
   match r with
   | .full => e.full
   | .short => e.short
 
-/-- `for (name : hashedProps) { value = props[name]; if (value.isInitialized()) key[name] = value; }`
+/-- the value `key[name]` gets in
+    `for (name : hashedProps) { value = props[name]; if (value.isInitialized()) key[name] = value; }`
     (`skip = false`: the assignment is unconditional and an unset value becomes an uninitialised member) -/
+def fieldVal (skip : Bool) (get : String → Option J) (n : String) : Option J :=
+  match get n with
+  | some v => some v
+  | Option.none => if skip then Option.none else some J.none
+
+/-- the object `key` after `key[n] = v` for the names that have a value -/
+def objOf (names : List String) (g : String → Option J) : J :=
+  mkObj (names.filterMap fun n => (g n).map fun v => (n, v))
+
 def fieldObj (skip : Bool) (fields : List String) (get : String → Option J) : J :=
-  mkObj (fields.filterMap fun n =>
-    match get n with
-    | some v => some (n, v)
-    | none => if skip then Option.none else some (n, J.none))
+  objOf fields (fieldVal skip get)
 
 /-- modeDevice->kernelHash(kernelProps) -/
-def modeKey (e : Env κ) (c : Config) : κ :=
+def modeKey (e : Env κ σ) (c : Config) : κ :=
   e.tweak (e.H (e.enc (fieldObj Gen.serialSkipsUnset Gen.serialFields c.get)))
 
 /-- kernelHeaderHash(kernelProps) -/
-def headerKey (e : Env κ) (c : Config) : κ :=
+def headerKey (e : Env κ σ) (c : Config) : κ :=
   e.H (e.enc (fieldObj Gen.headerSkipsUnset Gen.headerFields c.get))
 
-/-- the value stored under one label of the key object of setupKernelInfo -/
-def partVal (e : Env κ) (c : Config) : KeyPart → Bool → Option J
-  | .deviceHash, _ => some (.str (render e Gen.setupRender e.dev))
-  | .modeHash, _ => some (.str (render e Gen.setupRender (modeKey e c)))
-  | .headerHash, _ => some (.str (render e Gen.setupRender (headerKey e c)))
-  | .sourceHash, _ => some (.str (render e Gen.setupRender (e.H c.src)))
-  | .prop n, guarded =>
-    match c.get n with
-    | some v => some v
-    | none => if guarded then Option.none else some J.none
+/-- the value stored under one label of the key object of setupKernelInfo
+    (second component of the argument: the assignment is guarded by isInitialized) -/
+def partVal (e : Env κ σ) (c : Config) : KeyPart × Bool → Option J
+  | (.deviceHash, _) => some (render e Gen.setupRender e.dev)
+  | (.modeHash, _) => some (render e Gen.setupRender (modeKey e c))
+  | (.headerHash, _) => some (render e Gen.setupRender (headerKey e c))
+  | (.sourceHash, _) => some (render e Gen.setupRender (e.H (e.raw c.src)))
+  | (.prop n, guarded) => fieldVal guarded c.get n
 
-def partList (e : Env κ) (c : Config) (parts : List (String × KeyPart × Bool)) : List (String × J) :=
-  parts.filterMap fun lp => (partVal e c lp.2.1 lp.2.2).map fun v => (lp.1, v)
+def partList (e : Env κ σ) (c : Config) (parts : List (String × KeyPart × Bool)) : List (String × J) :=
+  parts.filterMap fun lp => (partVal e c lp.2).map fun v => (lp.1, v)
 
 /-- device::setupKernelInfo before applyDependencyHash:
     `key["device"] = …; key["mode"] = …; …; kernelHash = occa::hash(key)` -/
-def baseKey (e : Env κ) (c : Config) : κ :=
+def baseKey (e : Env κ σ) (c : Config) : κ :=
   e.H (e.enc (mkObj (partList e c Gen.setupParts)))
 
 /-! ### what the property talks about -/
